@@ -3,8 +3,8 @@
    assignment, conversion) throws.  The full statement C09_full (Proofs/LifeRefuted.v) is FALSE of the faithful model at
    three kinds of sites; the partial theorem excludes exactly the faults that fire there.
    This file holds only the property theorems, each closed by `exact`, with Print Assumptions. *)
-From BM Require Import Base.Tactics Model.Life Proofs.LifeMonad Proofs.LifeInv Proofs.LifeOps Proofs.LifeMain Proofs.LifeFacts
-  Proofs.LifeRefuted.
+From BM Require Import Base.Tactics Model.Life Proofs.LifeMonad Proofs.LifeInv Proofs.LifeOps Proofs.LifeDisc Proofs.LifeMain Proofs.LifeFacts
+  Proofs.LifeRefuted Proofs.LifeVal10.
 Local Open Scope Z_scope.
 
 (* For every history in its domain and every injection point k: if the fault fired at an allocation or inside an element
@@ -41,3 +41,13 @@ Theorem C09_swap_does_not_allocate :
   forall cfg r t s s', step cfg (OSwap r t) (reset_counts s) = Ok tt s' -> s_copies s' = 0 /\ s_allocs s' = 0.
 Proof. exact swap_no_copy. Qed.
 Print Assumptions C09_swap_does_not_allocate.
+
+(* Assignment through views (subarray::operator=, every overload; elements() = elements()) is one of the operations
+   that need no new storage: it is part of every history above (OViewAssign; its fault site is SAssignElem, an ok_site,
+   so C09_fault_safety_partial states that the exception reaches the caller and both arrays stay valid), and, thrown
+   or not, it replaces no array object: extents, storage and allocator of every array are what they were. *)
+Theorem C09_view_assign_keeps_arrays :
+  forall cfg, (1 <= c_rank cfg)%nat -> forall r t vr vt s,
+    match step cfg (OViewAssign r t vr vt) s with Ok _ s' | Threw s' => s_arrs s' = s_arrs s | Err _ => True end.
+Proof. exact view_assign_keeps_arrays. Qed.
+Print Assumptions C09_view_assign_keeps_arrays.
